@@ -93,6 +93,8 @@ struct Shared
 
 // trivially destructible, yet not trivially movable: the object knows its own address and a move marks its source, so a
 // byte-wise relocation (or a move that bypasses the move constructor) is visible
+extern long g_userCopies;   // copy constructions of stored types that have no fault point of their own
+
 template <int PAD, int TAG>
 struct SelfRef
 {
@@ -100,7 +102,7 @@ struct SelfRef
 	int val;
 	unsigned char pad[PAD > 0 ? PAD : 1];
 	explicit SelfRef(int v) : self(this), val(v) { for(int i = 0; i < (PAD > 0 ? PAD : 1); ++i) pad[i] = (unsigned char)(v + i + TAG); }
-	SelfRef(const SelfRef & o) : self(this), val(o.val) { std::memcpy(pad, o.pad, sizeof(pad)); }
+	SelfRef(const SelfRef & o) : self(this), val(o.val) { std::memcpy(pad, o.pad, sizeof(pad)); ++g_userCopies; }
 	SelfRef(SelfRef && o) : self(this), val(o.val) { std::memcpy(pad, o.pad, sizeof(pad)); o.val = -1; }
 	SelfRef & operator = (const SelfRef &) = delete;
 	static SelfRef make(int v) { return SelfRef(v); }
@@ -190,7 +192,9 @@ struct Runner
 					case O_MOVE: {
 						Slot & d = slots[((op.b % NSLOT) + NSLOT) % NSLOT];
 						if(s.state != 1 || d.state != 0 || &s == &d) break;
+						const long copiesBefore = fc.passedKind[F_COPY] + g_userCopies;
 						{ FaultArm arm2; new (d.any()) Any(std::move(*s.any())); }
+						if(fc.passedKind[F_COPY] + g_userCopies != copiesBefore) viol.raise("anydata-copied-on-move", "moving an AnyData copy-constructed the held object instead of moving it");
 						d.state = 1; d.value = s.value; s.state = 2;
 						++counters.movedChains;
 						check(*d.any(), d.value, viol, "after a move construction");
@@ -212,7 +216,9 @@ struct Runner
 						if(s.state != 1) break;
 						const int v = s.value;
 						s.state = 2;
+						const long copiesBefore = fc.passedKind[F_COPY] + g_userCopies;
 						{ FaultArm arm2; queue.enqueue(1, v, std::move(*s.any())); }
+						if(fc.passedKind[F_COPY] + g_userCopies != copiesBefore) viol.raise("anydata-copied-on-move", "enqueueing an rvalue AnyData copy-constructed the held object instead of moving it");
 						++counters.queueRoundTrips;
 						lastSeen = -1;
 						// (takeEvent needs a move-assignable QueuedEvent; AnyData deletes move assignment, so only process() can consume it)
@@ -289,6 +295,7 @@ void registerN4(std::vector<Entry> & v) { registerAll<64>(v); }
 #if defined(SEQ_MAIN)
 namespace sa {
 Counters counters;
+long g_userCopies = 0;
 static std::vector<Entry> g_table[NN];
 static void ensureTable()
 {
